@@ -38,8 +38,33 @@ NEEDS = {
  'C17b': 'write/writeln of a mutable byte array of run-time length 0',
  'C18': 'an array literal mixing an int literal and a byte value, under certain PYTHONHASHSEEDs',
  'C18b': '-m 24/40/48/56 and an int[] / string[] element at index >= 1',
+ # second round (different character: cooperating sites, optimisations, configuration, aliasing, stdlib)
+ 'C01c': 'a non-const global left operand with a byte-returning (cast-wrapped) callee that assigns it',
+ 'C01d': '-m24 only: int/string array elements at index >= 1 (shift instead of multiply)',
+ 'C02c': '`local ?? computed` in a context whose output register is r1',
+ 'C02d': 'defeat reached inside a defeat function owning a local array, caught by stop, repeated in a loop',
+ 'C03c': '`return !f(...)` inside a try/stop body where f reaches defeat',
+ 'C03d': 'try/undo whose only defeat calls are nested in expressions (two cooperating sites)',
+ 'C04c': '`buf[g] = f()` on a byte[] where g is a global that f modifies',
+ 'C04d': 'a const bool[] and a const byte[] table with equal literal values in one program',
+ 'C05c': 'a constant negative index into an array of literal length',
+ 'C05d': 'two divisions by the same non-const global in one function, zero at the second',
+ 'C08c': 'two try/stop blocks in one you-function with another you-function call between them',
+ 'C08d': 'try/stop whose body allocates no array but whose callee does and is defeated',
+ 'C09c': '`!truth_is_defeat(not (a < b))` with equal operands',
+ 'C09d': '`(x is bool) == true` with x outside {0,1}',
+ 'C13c': 'both quote characters in different constants of one compilation (memoised escape ignoring the quote)',
+ 'C13d': 'a stack bool[] literal with an aligned group of eight false elements over dirty stack bytes',
+ 'C14c': '`E and false` / `E or true` with a run-time E that has effects or faults',
+ 'C14d': 'a constant negative index into a constant string',
+ 'C15c': '--unchecked: an array literal whose later element evaluation allocates array space',
+ 'C15d': '--unchecked: preempt in a defeat function reached with virtual defeat before it returns',
+ 'C16c': 'a try body whose only defeat call sits inside an expression',
+ 'C16d': 'a user overload of all_is_broken / !is_defeat with arguments called as the last statement',
+ 'C17c': 'write of the most negative integer',
+ 'C17d': 'converting a non-literal string held in r1 to const byte[]',
 }
-ALSO = {'C18b': ['C01'], 'C17': ['C04'], 'C15': ['C02'], 'C09b': ['C14'], 'C07b': [], 'C16': ['C03']}
+ALSO = {'C01d': ['C18'], 'C04c': ['C01'], 'C04d': ['C13'], 'C14c': [], 'C13c': ['C10'], 'C16d': ['C03'], 'C17d': ['C01'], 'C09c': ['C02'], 'C09d': ['C01'], 'C18b': ['C01'], 'C17': ['C04'], 'C15': ['C02'], 'C09b': ['C14'], 'C07b': [], 'C16': ['C03']}
 
 
 def run(seed):
